@@ -49,6 +49,19 @@ ids = sys.argv[1:] or sorted(os.path.basename(d.rstrip('/')) for d in glob.glob(
 rows = []
 claimed = {c['property_id'] for c in json.load(open('MANIFEST.json'))['checks']}
 import concurrent.futures, shutil, tempfile
+def needs_from_notes(d):
+    """the section of the sub-agent's notes that says what the change needs in order to manifest (first 600 characters)"""
+    try:
+        txt = open(d + '/notes.md').read()
+    except OSError:
+        return ''
+    m = re.search(r'^#+[^\n]*\b[Nn]eeds\b[^\n]*\n(.*?)(?=^#+ |\Z)', txt, re.S | re.M)
+    if not m:
+        m = re.search(r'\*\*[^*\n]*[Nn]eeds[^*\n]*\*\*:?(.*?)(?=\n\s*\n|\Z)', txt, re.S)
+    if not m:
+        return ''
+    t = ' '.join(m.group(1).split())
+    return t[:600]
 def one(sid):
     d = 'seeded/' + sid
     prop = sid.split('-')[0]
@@ -78,7 +91,7 @@ def one(sid):
     meta = {
         'id': sid, 'property': prop,
         'breaks': "see notes.md (written by the sub-agent that produced the change from the property text alone)",
-        'needs_to_manifest': NEEDS.get(sid, ''),
+        'needs_to_manifest': NEEDS.get(sid, '') or needs_from_notes(d),
         'demonstration': {'files': demos, 'package_dir': pkg, 'fails_with_change': True, 'passes_without_change': True},
         'confirmed_by': "tools/confirm_seed.sh in a scratch worktree of /repo: go build ./... ok with the change, existing suite (go test -vet=off -count=1 ./...) passes with the change, demonstration fails with it and passes without it (confirm.log)",
         'check_result': {'command': 'VERIF_REPO=<scratch copy of /repo with the patch applied> ./check %s quick' % prop,
